@@ -18,6 +18,7 @@ type SpecFn struct {
 }
 
 type SpecChunk struct {
+	With     []string // ";; include-with: sym ..." : include this chunk whenever one of these symbols is used
 	File     string
 	Text     string
 	Provides []string
@@ -59,6 +60,11 @@ func LoadSpecs(dir string) (*SpecLib, error) {
 				continue
 			}
 			ch := &SpecChunk{File: filepath.Base(f), Text: part, Tokens: map[string]bool{}}
+			for _, l := range strings.Split(part, "\n") {
+				if strings.HasPrefix(strings.TrimSpace(l), ";; include-with:") {
+					ch.With = append(ch.With, strings.Fields(strings.TrimPrefix(strings.TrimSpace(l), ";; include-with:"))...)
+				}
+			}
 			for _, m := range declRe.FindAllStringSubmatch(part, -1) {
 				ch.Provides = append(ch.Provides, m[2])
 				lib.ByName[m[2]] = ch
@@ -161,11 +167,35 @@ func (lib *SpecLib) Select(used map[string]bool) (string, []string) {
 	for u := range used {
 		add(lib.ByName[u])
 	}
-	for len(work) > 0 {
-		c := work[len(work)-1]
-		work = work[:len(work)-1]
-		for t := range c.Tokens {
-			add(lib.ByName[t])
+	for {
+		for len(work) > 0 {
+			c := work[len(work)-1]
+			work = work[:len(work)-1]
+			for t := range c.Tokens {
+				add(lib.ByName[t])
+			}
+		}
+		// chunks that ride along with a symbol
+		progress := false
+		for _, c := range lib.Chunks {
+			if need[c] {
+				continue
+			}
+			for _, w := range c.With {
+				if used[w] {
+					add(c)
+					progress = true
+					break
+				}
+				if wc := lib.ByName[w]; wc != nil && need[wc] {
+					add(c)
+					progress = true
+					break
+				}
+			}
+		}
+		if !progress && len(work) == 0 {
+			break
 		}
 	}
 	var sb strings.Builder
